@@ -48,6 +48,10 @@ var sites = []site{
 	{regexp.MustCompile(`^event:.*treasure\.\(\*treasure\)\.GetModifiedAt$`), []int{63}},
 	{regexp.MustCompile(`^event:.*treasure\.\(\*treasure\)\.GetModifiedBy$`), []int{64}},
 	{regexp.MustCompile(`^event:.*treasure\.\(\*treasure\)\.GetExpirationTime$`), []int{65}},
+	{regexp.MustCompile(`^filecb:.*treasure\.\(\*treasure\)\.BodySetFileName$`), []int{45}},
+	{regexp.MustCompile(`treasure\.\(\*treasure\)\.BodySetFileName$`), []int{47}},
+	{regexp.MustCompile(`treasure\.\(\*treasure\)\.GetFileName$`), []int{46}},
+	{regexp.MustCompile(`swamp\.\(\*swamp\)\.(SaveFunction|deleteHandler)$`), []int{46}},
 	{regexp.MustCompile(`treasure\.\(\*treasure\)\.SetContent`), []int{20, 43}},
 	{regexp.MustCompile(`treasure\.\(\*treasure\)\.BodySetForDeletion$`), []int{21, 39, 41, 43}},
 	{regexp.MustCompile(`treasure\.\(\*treasure\)\.GetContentType$`), []int{22}},
@@ -76,6 +80,7 @@ var rowsInfo = map[int]rowInfo{
 	1: {"map", true}, 2: {"map", true}, 3: {"map", true}, 4: {"map", false}, 5: {"map", false}, 6: {"map", false}, 7: {"map", false},
 	14: {"map", false}, 15: {"map", true}, 16: {"map", true},
 	60: {"content", false}, 61: {"createdAt", false}, 62: {"createdBy", false}, 63: {"modifiedAt", false}, 64: {"modifiedBy", false}, 65: {"expiration", false},
+	45: {"fileName", true}, 46: {"fileName", false}, 47: {"fileName", true},
 	8: {"order", true}, 9: {"order", true}, 10: {"order", true}, 11: {"order", true}, 12: {"order", true}, 13: {"order", false},
 	20: {"content", true}, 21: {"content", true}, 22: {"content", false}, 23: {"content", false}, 24: {"content", false},
 	30: {"createdAt", true}, 31: {"createdAt", false}, 32: {"createdBy", true}, 33: {"createdBy", false},
@@ -155,6 +160,9 @@ func parseRaces(stderr string) []race {
 			if inEvent && strings.Contains(top, "treasure.(*treasure).Get") {
 				top = "event:" + top
 			}
+			if strings.Contains(b, "FilePointerCallbackFunction") && strings.HasSuffix(top, "BodySetFileName") {
+				top = "filecb:" + top
+			}
 			tops = append(tops, top)
 		}
 		for len(tops) < 2 {
@@ -179,7 +187,7 @@ func isIndexGuardDeadlock(dump string) bool {
 		if strings.Contains(g, "guard.(*guard).StartTreasureGuard") && strings.Contains(g, "beacon.(*beacon).") {
 			a = true
 		}
-		if strings.Contains(g, "sync.(*RWMutex).Lock") && strings.Contains(g, "beacon.(*beacon).") &&
+		if (strings.Contains(g, "sync.(*RWMutex).Lock") || strings.Contains(g, "sync.(*RWMutex).RLock")) && strings.Contains(g, "beacon.(*beacon).") &&
 			(strings.Contains(g, "(*swamp).deleteHandler") || strings.Contains(g, "(*swamp).SaveFunction")) {
 			b = true
 		}
